@@ -81,13 +81,13 @@ def run_projects(chk, asts, again=0, config="native", want_oracles=("C01", "C02"
         r.setdefault("model", []).append(model)
         # envelope accounting: the global theorems need `wfCheck`; their instances are counted per run
         if not model.get("wf", True):
-            r["diffs"].append("model: wfCheck is false for this project (the scheduler theorems do not apply)")
+            r["diffs"].append("model: wfCheck / treeCheck is false for this project (the scheduler theorems do not apply)")
         th = model.get("thm") or {}
         acc = chk.cov.setdefault("theorem_instances", {})
         for k2, v in th.items():
             acc[k2] = acc.get(k2, 0) + v
         acc["projects_wf"] = acc.get("projects_wf", 0) + (1 if model.get("wf") else 0)
-        if th.get("effort_exact_fail") or th.get("dep_fail"):
+        if th.get("effort_exact_fail") or th.get("dep_fail") or th.get("container_fail"):
             r["diffs"].append(f"model: a proved conclusion evaluates to false on the model's own run: {th}")
         # with several scenarios the implementation's final project end is the last scenario's
         obs_end = obs["end"] if si == len(obs["scenarios"]) - 1 else model["end"]
